@@ -14,7 +14,6 @@ PKG = "pkg/beacon/gjkr"
 HARNESS = ["gjkr_harness_test.go", "c01_test.go", "c02_test.go"]
 
 INITIATES = ["P%d_Initiate" % i for i in range(1, 13)]
-ALL_INV = "TypeOK Agreement NoHonestPunished NoAbort ViewsAgree ShareConsistency HonestInQual"
 
 _lock = threading.Lock()
 
@@ -144,11 +143,15 @@ def generate(ctx, prop):
         jobs["dir5"] = gen("Gen_Directed5", gen_cfg(5, 2, "Corrupt5", "Directed5", "Both"), timeout=5400)
 
     # ---- 4. random composite adversaries (simulation), all corrupt sets, all orders
-    nsim = ctx.pick({3: 60, 4: 60, 5: 150}, {3: 2500, 4: 2500, 5: 6000})
+    nsim = ctx.pick({3: 60, 4: 60, 5: 150}, {3: 800, 4: 800, 5: 2400})
+    parts = ctx.pick(1, 3)      # simulation jobs per group size (separate JVMs, separate seeds)
     for n, t in ((3, 1), (4, 1), (5, 2)):
-        jobs["sim%d" % n] = gen("Gen_Sim%d" % n, gen_cfg(n, t, "UpToT", "All4full", "OnlyFixed", "AllPlans"),
-                                mode="simulate", num=nsim[n], depth=130, simulate_seed=ctx.seed * 31 + n,
-                                timeout=ctx.pick(900, 5400))
+        for i in range(parts):
+            jobs["sim%d.%d" % (n, i)] = gen("Gen_Sim%d_%d" % (n, i),
+                                            gen_cfg(n, t, "UpToT", "All4full", "OnlyFixed", "AllPlans"),
+                                            mode="simulate", num=nsim[n] // parts, depth=130,
+                                            simulate_seed=ctx.seed * 31 + n + 1000 * i,
+                                            timeout=ctx.pick(1500, 7200))
     res = run_parallel(ctx, jobs)
 
     rnd = random.Random(ctx.seed)
@@ -191,7 +194,7 @@ def generate(ctx, prop):
             ctx.broken("the repaired design violates an invariant on a branch coverage behaviour")
         sel += beh
     for n in (3, 4, 5):
-        beh = res["sim%d" % n]
+        beh = [b for i in range(parts) for b in res["sim%d.%d" % (n, i)]]
         if len(beh) < nsim[n] * 0.5:
             ctx.broken("simulation n=%d produced only %d behaviours" % (n, len(beh)))
         if any(model_violates(b) for b in beh):
@@ -205,10 +208,28 @@ def generate(ctx, prop):
     return sel, res
 
 
+PROPERTY_LEVEL = ("agreement", "punished", "abort", "shares", "crash", "panic")
+
+
 def replay(ctx, prop, sel):
-    # split into chunks so that a crash of the code under test (a panic in a
-    # goroutine cannot be recovered by the harness) is attributed to few behaviours
     go = ctx.gotest(PKG, "^TestVerif_%s_Replay$" % prop, HARNESS, inputs={"behaviours.ndjson": sel},
-                    label="replay", timeout=ctx.pick(900, 5400))
+                    label="replay", timeout=ctx.pick(1500, 7200))
+    for rep in go.reports.values():
+        # violations of the property itself first, conformance differences after them
+        dv = rep.get("divergences") or []
+        dv.sort(key=lambda d: 0 if (d.get("key") or "").split(":")[0] in PROPERTY_LEVEL else 1)
+        rep["divergences"] = dv
     ctx.absorb(go, require_evals=max(1, len(sel) // 2))
     return go
+
+
+def replay_one(ctx, prop):
+    """./vcheck <ID> --replay <file>: re-run the behaviour stored in a counterexample file."""
+    with open(ctx.replay) as f:
+        cex = json.load(f)
+    b = (((cex.get("detail") or {}).get("case")) or {}).get("behaviour")
+    if not b:
+        ctx.broken("replay file %s does not contain a behaviour (only the first divergences of a run store it)" % ctx.replay)
+    replay(ctx, prop, [b])
+    return ctx.finish(level="model_checking", rule="replay of one stored behaviour on the real code",
+                      assumptions=["see the full check"], exhaustive=False)
